@@ -14,8 +14,8 @@
 import Driver.Proto
 import Driver.ProtoMesh
 import FcModel.Spec.C07
-namespace Fc.Drv
-open Fc
+namespace Fc.Drv.C07
+open Fc Fc.Drv Fc.C07
 
 def joinWith (sep : String) (l : List String) : String := sep.intercalate l
 
@@ -63,17 +63,17 @@ def geomExact (lo : List Int) (ext : List Nat) : GridGeom → Bool
 def opMesh : P String := do
   let ext ← pMany pNat 3
   let g ← pGeom
-  let hyp := Spec.gridHyp ext g [] [] && geomExact [0, 0, 0] ext g
+  let hyp := C07.Spec.gridHyp ext g [] [] && geomExact [0, 0, 0] ext g
   let model := match gridMesh ext g with
     | none => "raise"
     | some m =>
       let ct := gridCellType g.kind ext
       s!"{ct}@{joinWith ";" (m.points.map showInts)}@{joinWith ";" ((m.cellsOf ct).map showNats)}"
   let spec :=
-    let ct := Spec.latticeType g.kind (gridDim ext)
+    let ct := C07.Spec.latticeType g.kind (gridDim ext)
     let np := prodNat (ext.map (· + 1))
-    let pts := (List.range np).map fun p => Spec.geomAt ext g (unflatten (ext.map (· + 1)) p)
-    let rows := (List.range (prodNat (nonzeroExtents ext))).map (Spec.latticeCell ext ct)
+    let pts := (List.range np).map fun p => C07.Spec.geomAt ext g (unflatten (ext.map (· + 1)) p)
+    let rows := (List.range (prodNat (nonzeroExtents ext))).map (C07.Spec.latticeCell ext ct)
     s!"{ct}@{joinWith ";" (pts.map showInts)}@{joinWith ";" (rows.map showNats)}"
   pure s!"hyp={showBool hyp} model={model} spec={if hyp then spec else "-"}"
 
@@ -87,14 +87,14 @@ def opRead : P String := do
   let pfs' := pfs.map fun (n, a) => PointField.mk n a
   let model := match readGrid extent g pfs' cfs with
     | none => "raise"
-    | some f => showContent f.pointContent (f.cellContent.map Spec.normCell)
+    | some f => showContent f.pointContent (f.cellContent.map C07.Spec.normCell)
   match cellsPerDirection extent with
   | none => pure s!"hyp=0 model={model} spec=-"
   | some ext =>
     let lo := [extent.getD 0 0, extent.getD 2 0, extent.getD 4 0]
-    let wf := Spec.gridHyp ext g pfs' cfs && geomExact lo ext g
-    let off := Spec.imageOffset lo g
-    let spec := showContent (Spec.filePointContent lo ext g pfs') (Spec.fileCellContent lo ext g cfs)
+    let wf := C07.Spec.gridHyp ext g pfs' cfs && geomExact lo ext g
+    let off := C07.Spec.imageOffset lo g
+    let spec := showContent (C07.Spec.filePointContent lo ext g pfs') (C07.Spec.fileCellContent lo ext g cfs)
     pure s!"hyp={showBool (wf && !off)} cls={showBool off} model={model} spec={if wf then spec else "-"}"
 
 def pMio : P MioMesh := do
@@ -119,21 +119,21 @@ def opMio : P String := do
   let model := match fromMeshio m with
     | none => "raise"
     | some f => showContent f.pointContent f.cellContent
-  let spec := showContent (Spec.mioPointContent m) (Spec.mioCellContent m)
+  let spec := showContent (C07.Spec.mioPointContent m) (C07.Spec.mioCellContent m)
   pure s!"hyp={showBool hyp} cls={showBool rep} model={model} spec={if m.wf then spec else "-"}"
 
 /-- two cell types of the mesh collapse to one meshio type -/
 def mioCollision (f : MeshFields) : Bool :=
-  let ts := f.mesh.cellTypes.map Spec.normType
+  let ts := f.mesh.cellTypes.map C07.Spec.normType
   ts.zipIdx.any fun (t, i) => (ts.take i).contains t
 
 def opToMio : P String := do
   let f ← pMeshFields
-  let hyp := f.wf && !mioCollision f && f.mesh.cellTypes.all (fun t => (toMioType (Spec.normType t)).isSome)
+  let hyp := f.wf && !mioCollision f && f.mesh.cellTypes.all (fun t => (toMioType (C07.Spec.normType t)).isSome)
   let model := match toMeshio f with
     | none => "raise"
-    | some m => showContent (Spec.mioPointContent m) (Spec.mioCellContent m)
-  let spec := showContent f.pointContent (f.cellContent.map Spec.normCell)
+    | some m => showContent (C07.Spec.mioPointContent m) (C07.Spec.mioCellContent m)
+  let spec := showContent f.pointContent (f.cellContent.map C07.Spec.normCell)
   pure s!"hyp={showBool hyp} model={model} spec={if hyp then spec else "-"}"
 
 def handleC07 (op : String) : Option (P String) :=
@@ -144,4 +144,6 @@ def handleC07 (op : String) : Option (P String) :=
   | "c07tomio" => some opToMio
   | _ => none
 
-end Fc.Drv
+end Fc.Drv.C07
+
+def Fc.Drv.handleC07 := Fc.Drv.C07.handleC07
